@@ -17,7 +17,7 @@ Recorded ==
 
 Apply(e) ==
     CASE e.ev = "reset"    -> PReset
-      [] e.ev = "config"   -> PConfig(e.variant, e.retry, e.burst)
+      [] e.ev = "config"   -> PConfigBo(e.variant, e.retry, e.burst, IF "boconf" \in DOMAIN e THEN e.boconf = "" ELSE TRUE)
       [] e.ev = "call"     -> PCall(e)
       [] e.ev = "ret"      -> IF e.id \in DOMAIN calls THEN PRet(e)
                               ELSE bad' = bad \cup {"Harness"} /\ UNCHANGED <<cfg, clk, now, pctx, prt, epoch, inst, calls, snapw, chs, credit, creditR, needEnter, ctxTouch, status, cbseen, boReset, boStop, rootdead, td>>
